@@ -21,6 +21,7 @@ func runC01Gaps2(c *eng.Ctx) {
 	c01gStorageAccessUsers(c)
 	c01gWriterFormat(c)
 	c01gNotFoundOnlyWhenAbsent(c)
+	keyringZeroizeOwnership(c, "C01.7")
 }
 
 // C01.6: the two seal-wrapped bootstrap records (stored barrier keys, recovery
@@ -279,4 +280,88 @@ func c01gNotFoundOnlyWhenAbsent(c *eng.Ctx) {
 		c.Cut(f, "return of (no entry, no error)", notFound, eng.G(f, `^<physical\.Backend>\.Get\(\)#0 == nil$`, true), nil)
 	}
 	c.Floor(nil, "barrier readers with a not-found return", n, 1)
+}
+
+// keyringZeroizeOwnership (C01.7, shared with C10.2): a superseded keyring is
+// zeroised only if it shares no root-key bytes with the keyring that stays
+// live. Ownership facts of the Keyring type: Clone (and so AddKey, RemoveKey)
+// hands the root-key slice on by reference; SetRootKey gives its result a
+// freshly allocated copy. Hence every Zeroize site outside Seal must sit in a
+// function that replaces the live keyring, and every keyring it makes live
+// must come out of Keyring.SetRootKey (directly or through
+// updateRootKeyCommon, whose results come out of SetRootKey). Zeroising after
+// a swap to a clone wipes the live root key; the next keyring persist then
+// encrypts the keyring record under, and publishes, an all-zero root key.
+func keyringZeroizeOwnership(c *eng.Ctx, clause string) {
+	const (
+		setRoot   = `^call:barrier\.\(\*Keyring\)\.SetRootKey$`
+		viaCommon = `^call:barrier\.\(\*AESGCMBarrier\)\.updateRootKeyCommon#0$`
+	)
+	// ownership facts
+	c.Clause("R5", clause)
+	copies := false
+	if f := c.Fn("barrier.(*Keyring).SetRootKey"); f != nil {
+		st := eng.Stores(f, `\.rootKey$`)
+		if c.Floor(f, "store of the new root key", len(st), 1) {
+			copies = true
+			for _, s := range st {
+				site := "SetRootKey gives its result its own root-key bytes"
+				_, fresh := s.Val.(*ssa.MakeSlice)
+				_, toRecv := s.Addr.(*ssa.FieldAddr)
+				if fresh && toRecv && len(eng.Calls(f, `^copy$`)) > 0 {
+					c.OK(f, site, s.Pos(), "freshly allocated slice filled by copy")
+				} else {
+					copies = false
+					c.Violation(f, site, s.Pos(), "the root key installed is "+eng.ExprDeep(s.Val)+", not a fresh copy: the result aliases the caller's or the old keyring's bytes, which callers zeroise", nil)
+				}
+			}
+		}
+	}
+	if f := c.Fn("barrier.(*AESGCMBarrier).updateRootKeyCommon"); f != nil {
+		n := 0
+		for _, r := range eng.NonNilResultReturns(f, 0) {
+			vals, _, _ := eng.ReturnVals(r.(*ssa.Return), 0)
+			for _, v := range vals {
+				if eng.IsNilConst(v) {
+					continue
+				}
+				n++
+				c.Prov(f, "keyring handed out by updateRootKeyCommon", r, v, setRoot, `^const:nil$`)
+			}
+		}
+		c.Floor(f, "keyring-returning exits of updateRootKeyCommon", n, 1)
+	}
+	// sites
+	c.Clause("R1", clause)
+	sites := c.P.FindCalls(mustStatic(c, "barrier.(*Keyring).Zeroize"), nil)
+	checked := 0
+	for _, s := range sites {
+		top := eng.TopFunc(s.Fn)
+		if eng.FuncName(top) == "barrier.(*AESGCMBarrier).Seal" {
+			continue // drops the keyring altogether (C10.2)
+		}
+		checked++
+		site := "zeroised keyring shares no root-key bytes with the live one"
+		var swaps []*ssa.Store
+		for _, st := range eng.Stores(s.Fn, `^b\.keyring$`) {
+			if !eng.IsNilConst(st.Val) {
+				swaps = append(swaps, st)
+			}
+		}
+		if len(swaps) == 0 {
+			c.Violation(s.Fn, site, s.Call.Pos(), "Zeroize in a function that does not replace the live keyring: the keyring wiped is, or shares its root key with, the live one", nil)
+			continue
+		}
+		okAll := copies
+		for _, st := range swaps {
+			if ok, bad, _ := eng.OriginsMatch(st.Val, setRoot, viaCommon); !ok {
+				okAll = false
+				c.Violation(s.Fn, site, s.Call.Pos(), "the keyring made live before this Zeroize may originate from "+bad+", an operation that clones (shares the root-key slice by reference) instead of Keyring.SetRootKey, which copies: zeroising the replaced keyring wipes the live root key", nil)
+			}
+		}
+		if okAll {
+			c.OK(s.Fn, site, s.Call.Pos(), "every keyring made live here comes out of Keyring.SetRootKey (own root-key copy)")
+		}
+	}
+	c.Floor(nil, "Zeroize sites outside Seal", checked, 3)
 }
